@@ -21,6 +21,8 @@ struct Cfg {
     kinetic: KineticEnergyKind,
     num_tune: u64,
     dynamic: bool,
+    /// doublings performed after the U-turn criterion fired (non-default tree option)
+    extra_doublings: u64,
     name: String,
 }
 
@@ -29,6 +31,9 @@ fn tweaks(c: &Cfg) -> Tweaks {
     t.num_tune = c.num_tune;
     t.num_draws = 4;
     t.maxdepth = Some(4);
+    if c.extra_doublings > 0 {
+        t.extra_doublings = Some(c.extra_doublings);
+    }
     if c.preset.is_nuts() {
         t.kinetic = Some(c.kinetic);
     }
@@ -313,12 +318,16 @@ pub fn run_check(tier: Tier, _replay: Option<String>) -> i32 {
     for &nt in &tunes {
         for preset in [Preset::DiagNuts, Preset::LowRankNuts] {
             for kin in [KineticEnergyKind::Euclidean, KineticEnergyKind::ExactNormal] {
-                cfgs.push(Cfg { preset, kinetic: kin, num_tune: nt, dynamic: false, name: format!("{preset:?}-{kin:?}-tune{nt}") });
+                cfgs.push(Cfg { preset, kinetic: kin, num_tune: nt, dynamic: false, extra_doublings: 0, name: format!("{preset:?}-{kin:?}-tune{nt}") });
+                // non-default tree option: doublings that continue after the U-turn criterion fired
+                if kin == KineticEnergyKind::Euclidean && nt == 10 {
+                    cfgs.push(Cfg { preset, kinetic: kin, num_tune: nt, dynamic: false, extra_doublings: 2, name: format!("{preset:?}-{kin:?}-tune{nt}-extra2") });
+                }
             }
         }
-        cfgs.push(Cfg { preset: Preset::FlowNuts, kinetic: KineticEnergyKind::Euclidean, num_tune: nt, dynamic: false, name: format!("FlowNuts-tune{nt}") });
+        cfgs.push(Cfg { preset: Preset::FlowNuts, kinetic: KineticEnergyKind::Euclidean, num_tune: nt, dynamic: false, extra_doublings: 0, name: format!("FlowNuts-tune{nt}") });
         for dynamic in [false, true] {
-            cfgs.push(Cfg { preset: Preset::DiagMclmc, kinetic: KineticEnergyKind::Euclidean, num_tune: nt, dynamic, name: format!("DiagMclmc-dynamic{dynamic}-tune{nt}") });
+            cfgs.push(Cfg { preset: Preset::DiagMclmc, kinetic: KineticEnergyKind::Euclidean, num_tune: nt, dynamic, extra_doublings: 0, name: format!("DiagMclmc-dynamic{dynamic}-tune{nt}") });
         }
     }
     // job list: (config index, faults)
